@@ -153,6 +153,10 @@ func (c *Check) RunIsolated(unit string, limitKB int, onCrash func(Crash)) {
 		if done {
 			return
 		}
+		if strings.Contains(stderr.String(), "VSCHED-WATCHDOG") {
+			os.WriteFile(Root+"/.work/watchdog-"+strings.ReplaceAll(unit, "/", "_")+".txt", stderr.Bytes(), 0o644)
+			c.Fatal("scheduler watchdog fired in worker %s (goroutine dump in /verif/.work/watchdog-*.txt)", unit)
+		}
 		if lastIdx < from {
 			c.Fatal("worker for %s died before reaching input %d:\n%s", unit, from, tail(stderr.String(), 2000))
 		}
